@@ -37,6 +37,17 @@ def cases(tier: str, seed: int) -> List[Dict[str, Any]]:
     from models.ops import OPS as _OPS, default_cfg as _dc
 
     for name, op in _OPS.items():
+        t_ = op.make(_dc(op), __import__("torch").Generator().manual_seed(0))
+        fl = [k for k, v in t_.items() if v.is_floating_point() and k != "attn_mask"]
+        if name in ("linear", "linear_readout", "conv1d", "layer_norm"):
+            t_ = op.make(dict(_dc(op), bias=True), __import__("torch").Generator().manual_seed(0))
+            fl = [k for k, v in t_.items() if v.is_floating_point()]
+        if len(fl) >= 2:
+            for fz in fl:
+                cfgf = dict(_dc(op), dtype="float64")
+                if "bias" in fl:
+                    cfgf["bias"] = True
+                out.append({"kind": "probe", "op": name, "cfg": cfgf, "seed": seed, "env": f"freeze={fz}"})
         for env in ("default_dtype=float64", "default_dtype=bfloat16", "default_dtype=float16", "noncontiguous", "expanded_batch"):
             for dt in ("float64", "float32"):
                 out.append({"kind": "probe", "op": name, "cfg": dict(_dc(op), dtype=dt), "seed": seed, "env": env})
@@ -166,6 +177,14 @@ def run_case(case: Dict[str, Any]) -> Dict[str, Any]:
             if hi - lo > max(tol, 1e-11) * 3 * hi:
                 viol.append({"key": ident + f"|grad_scalar_varies|{name}",
                              "msg": f"cfg={cfg} input={name}: scalars over value/upstream draws {vals}"})
+    if case.get("env", "").startswith("freeze=") and not viol:
+        base = probe(op, cfg, case["seed"], draws=1, gdraws=1)
+        if "draws" in base and base["draws"] and base["draws"][0].get("grads"):
+            for name, recs in base["draws"][0]["grads"].items():
+                if name in cs and recs and recs[0].get("c"):
+                    if abs(cs[name][0] - recs[0]["c"]) > 1e-10 * abs(recs[0]["c"]):
+                        viol.append({"key": ident + f"|grad_scalar_depends_on_requires_grad_of_other_input|{name}",
+                                     "msg": f"cfg={cfg}: scalar for {name} is {cs[name][0]!r} with {case['env']}, {recs[0]['c']!r} otherwise"})
     out = ",".join(f"{k}={v[0]:.4g}" for k, v in sorted(cs.items()))
     return {"violations": viol[:4], "steps": 4 * max(1, len(cs)), "nontrivial": nonzero,
             "outcome": op.name if viol else f"{op.name}:{out}"}
